@@ -46,6 +46,8 @@ def call(eng, e, st, stmt):
             return apply_contract(eng, Contract.registry[q2], None, args, kwargs, e, st, ctor=q)
         if imp[0] == 'class' or _is_class(eng, imp[1], imp[2]):
             return inline_ctor(eng, q, args, kwargs, e, st)
+        if q in eng.inline_ok:
+            return inline_function(eng, q, args, kwargs, e, st)
         raise Unsupported('%s: call to %s (line %d) has no contract' % (fc.qualname, q, e.lineno))
     if kind == 'method':
         obj, name, objexpr = fv.payload
@@ -89,7 +91,7 @@ def _print(eng, e, st):
     return PNone()
 
 
-GHOST_READONLY = ('$quit',)     # ghost inputs that no function changes
+GHOST_READONLY = ('$quit', '$pw')     # ghost inputs that no function changes
 
 
 def bind_args(con, selfpair, args, kwargs, e, eng):
@@ -156,6 +158,9 @@ def apply_contract(eng, con, selfpair, args, kwargs, e, st, ctor=None):
             vals[n] = coerce(vals[n], shp, eng)
     c = Ctx(dict(vals), eng=eng)
     tag = '%s.call.L%d.%s' % (fc.short, e.lineno, con.qualname.partition(':')[2])
+    if getattr(con, 'definitions', None) is not None:
+        for b in con.definitions(c):
+            st.assume(b)
     for nm, b in con.requires(c):
         eng.emit(VC('%s.pre.%s' % (tag, nm), st.pc, b, 'pre', fn=fc.qualname))
         st.assume(b)
@@ -247,6 +252,7 @@ def inline_ctor(eng, q, args, kwargs, e, st):
     dummy.loops = {}
     dummy.call_writes = {}
     dummy.params = {}
+    dummy.volatile = {}
     inner = FnCtx(eng, dummy, node, q + '.__init__', src)
     inner.safe_n = outer.safe_n
     env = {'self': PObj(q, {})}
@@ -272,3 +278,36 @@ def _is_class(eng, modname, name):
     except (OSError, Unsupported):
         return False
     return any(isinstance(n, _ast.ClassDef) and n.name == name for n in tree.body)
+
+
+def inline_function(eng, q, args, kwargs, e, st):
+    """A helper listed in Engine.inline_ok (straight-line, no loops) is executed inline from its real source."""
+    from .engine import FnCtx, State
+    node, info, src = eng.src.function(q)
+    if info not in eng.functions:
+        info['inlined'] = True
+        eng.functions.append(info)
+    formal = [a.arg for a in node.args.args]
+    if len(args) != len(formal) or kwargs:
+        raise Unsupported('inline call %s: argument binding' % q)
+    outer = eng.cur
+    dummy = Contract.__new__(Contract)
+    dummy.locals = {}
+    dummy.loops = {}
+    dummy.call_writes = {}
+    dummy.params = {}
+    dummy.volatile = {}
+    inner = FnCtx(eng, dummy, node, q, src)
+    inner.safe_n = outer.safe_n
+    sub = State(dict(zip(formal, args)), st.pc)
+    eng.cur = inner
+    try:
+        outs = eng.exec_block(node.body, sub)
+    finally:
+        eng.cur = outer
+        outer.safe_n = inner.safe_n
+    rets = [o for o in outs if o[0] in ('return', 'next')]
+    if len(outs) != 1 or len(rets) != 1:
+        raise Unsupported('inline call %s is not straight-line' % q)
+    st.pc = rets[0][1].pc
+    return rets[0][2] if rets[0][2] is not None else PNone()
